@@ -33,7 +33,7 @@ impl Default for Root {
 pub fn root_from_document(document: &Document) -> Result<Root> {
     // Only the root element of the document is the E57 root, not an element with that name further down
     let root = Some(document.root_element())
-        .filter(|n| n.has_tag_name("e57Root"))
+        .filter(|n| xml::is_tag(n, "e57Root"))
         .invalid_err("Unable to find e57Root tag in XML document")?;
 
     // Required fields
